@@ -1,3 +1,5 @@
+//go:build verif
+
 package c01
 
 import (
@@ -607,6 +609,7 @@ func (g *generator) roots(dev int, emit func(string)) {
 
 // program is a term rendered to S-expressions.
 type program struct {
+	rename  *term // the instance whose variables are renamed (alpha-conversion probe), or nil
 	forms   []*node
 	leaves  int
 	kinds   []string // template kinds in order of appearance
@@ -623,8 +626,12 @@ func (p *program) text() string {
 }
 
 // instantiate renders t. prefix makes the defun names unique to this run.
-func instantiate(t *term, prefix string) *program {
-	p := &program{prefix: prefix}
+func instantiate(t *term, prefix string) *program { return instantiateRenaming(t, prefix, nil) }
+
+// instantiateRenaming renders t with every variable inside the instance `rename` given a fresh name
+// (x -> xq ...). For a closed instance this is alpha-conversion: the meaning of the program does not change.
+func instantiateRenaming(t *term, prefix string, rename *term) *program {
+	p := &program{prefix: prefix, rename: rename}
 	p.forms = []*node{p.build(t, 'a', &hole{kind: 'a'})}
 	return p
 }
@@ -652,7 +659,58 @@ func (p *program) defaultLeaf(req byte, h *hole) *node {
 	return p.trLeaf(nInt(n))
 }
 
+var poolVars = map[string]bool{"x": true, "y": true, "z": true, "n": true, "a": true, "b": true, "c": true,
+	"u": true, "v": true, "w": true, "i": true, "f": true, "g": true}
+
+// freeVars: the variables an instance takes from outside itself (environment leaves whose binder is not a
+// hole of the instance). They keep their names in the alpha-conversion probe.
+func freeVars(inst *term) map[string]bool {
+	free := map[string]bool{}
+	var walk func(n *term, sc scope)
+	walk = func(n *term, sc scope) {
+		if strings.HasPrefix(n.kind, "$") {
+			if _, bound := sc.find(n.kind[2:]); !bound {
+				free[n.kind[2:]] = true
+			}
+			for _, k := range n.kids {
+				walk(k, sc)
+			}
+			return
+		}
+		if tp := tmplByName[n.kind]; tp != nil {
+			for i, h := range tp.holes {
+				walk(n.kids[i], sc.extend(h))
+			}
+		}
+	}
+	walk(inst, scope{})
+	return free
+}
+
+func renameVars(n *node, keep map[string]bool) *node {
+	switch n.kind {
+	case 's':
+		if poolVars[n.s] && !keep[n.s] {
+			return nSym(n.s + "q")
+		}
+	case 'l':
+		if 0 < len(n.l) && n.l[0].isSym("quote") {
+			return n
+		}
+		c := &node{kind: 'l', short: n.short, l: make([]*node, len(n.l))}
+		for i, e := range n.l {
+			c.l[i] = renameVars(e, keep)
+		}
+		return c
+	}
+	return n
+}
+
 func (p *program) build(t *term, req byte, h *hole) *node {
+	if t == p.rename && t != nil {
+		p.rename = nil
+		return renameVars(p.build(t, req, h), freeVars(t))
+	}
 	switch {
 	case t.kind == "_":
 		return p.defaultLeaf(req, h)
